@@ -250,8 +250,12 @@ def check(P: Project, R: Report) -> None:
 
                 if neg:
                     subj = _holder(core)
-                elif isinstance(core, ast.Compare) and len(core.ops) == 1 and isinstance(core.ops[0], ast.Is) and ast.unparse(core.comparators[0]) == "None":
-                    subj = _holder(core.left)
+                elif isinstance(core, ast.Compare) and len(core.ops) == 1 and isinstance(core.ops[0], ast.Is):
+                    cmp_ = ast.unparse(core.comparators[0])
+                    dflt = core.left.args[2] if isinstance(core.left, ast.Call) and call_name(core.left) == "getattr" and len(core.left.args) == 3 else None
+                    # `… is None`, or `getattr(holder, name, MARK) is MARK`: the attribute is absent
+                    if cmp_ == "None" or (dflt is not None and ast.unparse(dflt) == cmp_):
+                        subj = _holder(core.left)
                 if subj is None:
                     continue
                 root = subj.split(".")[0]
